@@ -1,4 +1,5 @@
 import CfdpVerif.Props.C14
+import CfdpVerif.Props.C08
 import CfdpVerif.Lemmas.InvSourceBound
 import CfdpVerif.Lemmas.InvDestBound
 /-!
@@ -784,6 +785,57 @@ theorem C04_source_silent_peer_idle_after_2N (cfg : LocalCfg) (rc : RemoteCfg) (
     rw [h3, e_conf, e_prog]
   · show Source.handlePositiveAckProcedures ⟨cfg, last2⟩ (srcExpiries cfg times2 s1d []).1 = _
     rw [h3]; exact hsend
+
+/-! ### a served NAK is not progress for the EOF (half-silent link at the sender) -/
+
+section ServedNak
+open Cfdp.Source Cfdp.Source.C08
+
+def isEofPdu : Pdu → Bool
+  | .eof .. => true
+  | _ => false
+
+theorem chunkPdus_no_eof (conf : Hdr) (F : List UInt8) (seg : Nat) :
+    ∀ (fuel cur missing : Nat), ∀ p ∈ chunkPdus conf F seg fuel cur missing, isEofPdu p = false := by
+  intro fuel
+  induction fuel with
+  | zero => intro cur missing p hp; simp [chunkPdus] at hp
+  | succ fuel ih =>
+    intro cur missing p hp
+    unfold chunkPdus at hp
+    split at hp
+    · simp only [List.mem_cons] at hp
+      rcases hp with hp | hp
+      · subst hp; rfl
+      · exact ih _ _ p hp
+    · simp at hp
+
+/-- **Serving a NAK is not progress for the EOF** (sender waiting for the ACK of its EOF PDU, half-silent
+link: the receiver's NAKs arrive, its ACKs do not): the call answers the valid requests with Metadata /
+File Data PDUs only — no EOF PDU outside the timer —, and the positive ACK timer and counter are exactly
+what they were, so the expiry schedule and the limit are unaffected. -/
+theorem C04_source_served_nak_not_progress (env : Env) (s : SrcSt) (rc : RemoteCfg) (req : PutReq)
+    (src dst : String) (F : List UInt8) (h : Hdr) (sos eos : Nat) (reqs : List (Nat × Nat))
+    (hadm : checkInsertedPacket env (.nak h sos eos reqs) s = .ok () s)
+    (hb : s.state = .busy) (hq : s.queue = []) (hmode : s.p.conf.mode = .ack)
+    (hstep : s.step = .WAITING_FOR_EOF_ACK)
+    (hreq : s.putReq = some req) (hsrc : req.src = some src) (hdst : req.dst = some dst)
+    (hrc : s.p.remoteCfg = some rc) (hfile : s.fs.get src = some (.file F)) (hseg : 0 < s.p.segmentLen)
+    (hv : ∀ r ∈ reqs, ValidReq s.p.progress r) :
+    ∃ s', stateMachine env (some (.nak h sos eos reqs)) s = .ok () s' ∧
+      s'.p = s.p ∧ s'.flts = s.flts ∧ (∀ p ∈ s'.queue, isEofPdu p = false) := by
+  have h1 := C08_nak_call env s rc req src dst F h sos eos reqs hadm hb hq hmode (Or.inr (Or.inl hstep)) hreq hsrc
+    hdst hrc hfile hseg hv
+  refine ⟨_, h1, rfl, rfl, ?_⟩
+  intro p hp
+  simp only [afterNak, hq, List.nil_append, List.mem_flatMap] at hp
+  obtain ⟨r, _, hr⟩ := hp
+  unfold answer at hr
+  split at hr
+  · simp only [List.mem_singleton] at hr; subst hr; rfl
+  · exact chunkPdus_no_eof _ _ _ _ _ _ p hr
+
+end ServedNak
 
 /-! ## The retry counters never reach their limits — every call sequence -/
 
